@@ -26,8 +26,19 @@ _LIT = {}
 
 
 def lit_id(s):
-    """identity of a literal UID string: distinct negative integers (symbolic identities range over all integers)"""
-    return _LIT.setdefault(s, -1 - len(_LIT))
+    """identity of a literal UID string: distinct integers below -10**6 (symbolic identities range over all integers; the
+    contracts' own constant identities are small)"""
+    return _LIT.setdefault(s, -1000001 - len(_LIT))
+
+
+EMPTY_UID = lit_id("")
+
+
+def ts_uid(I, ident):
+    """a transfer syntax held by a PresentationContext.  Class invariant of PresentationContext (requires): the empty UID is
+    never in _transfer_syntax - add_transfer_syntax, its only writer, refuses it (TsInvariantTask proves that)."""
+    I.assume(ident != EMPTY_UID)
+    return UIDv(ident)
 
 
 class UIDv:
@@ -51,15 +62,20 @@ class UIDv:
         return False
 
     def sym_len(self, I):
-        n = I.fresh("int", "uidlen")
-        I.assume(z3.And(n.e >= 1, n.e <= 64))
+        # a function of the UID value: 0 for the empty UID, 1..64 for every other UID the contracts range over
+        n = SV(z3.Function("uid_len", z3.IntSort(), z3.IntSort())(self.ident), "int")
+        I.assume(z3.If(self.ident == lit_id(""), n.e == 0, z3.And(n.e >= 1, n.e <= 64)))
         return n
 
     def sym_getattr(self, I, name):
         if name in ("is_valid", "is_private", "is_transfer_syntax", "is_implicit_VR", "is_little_endian", "is_deflated",
                     "is_compressed"):
             # a property of the UID VALUE: the same UID always answers the same (uninterpreted predicate of the identity)
-            return SV(z3.Function(f"uid_{name}", z3.IntSort(), z3.BoolSort())(self.ident), "bool")
+            p = z3.Function(f"uid_{name}", z3.IntSort(), z3.BoolSort())(self.ident)
+            if name == "is_valid":
+                # assumed library contract (pydicom.uid.UID.is_valid): the empty string is not a valid UID
+                I.assume(z3.Implies(self.ident == lit_id(""), z3.Not(p)))
+            return SV(p, "bool")
         if name in ("name", "keyword"):
             return I.fresh("str", f"uid.{name}")
         return NotImplemented
@@ -84,6 +100,48 @@ def neg_config(prefix):
     c.summaries["pynetdicom.utils:validate_uid"] = lambda I, a, k: True
     c.ext_models["pydicom.uid.UID"] = lambda I, a, k: a[0]
     return c
+
+
+# ---------------------------------------------------------------------------------------------
+# class invariant of PresentationContext used as a precondition by the negotiation contracts
+# ---------------------------------------------------------------------------------------------
+ADD_TS = f"{PR}:PresentationContext.add_transfer_syntax"
+
+
+class TsInvariantTask(Task):
+    """`'' not in self._transfer_syntax` is preserved by add_transfer_syntax (the only function that appends to the list;
+    the setter resets it to [] and calls add_transfer_syntax per element, __init__ starts from []).  Two guards keep it: the
+    real utils.validate_uid (executed here) rejects the empty UID in both configuration modes, and the `!= ""` test.  The list before the call
+    holds 0..2 arbitrary non-empty UIDs (the invariant is per entry; the body reads the list only through `in`)."""
+    name = "PresentationContext/transfer-syntax-list-never-holds-the-empty-UID"
+    functions = [ADD_TS]
+
+    def __init__(self, prefix="C10/"):
+        self.prefix = prefix
+
+    def config(self, repo):
+        c = neg_config(self.prefix)
+        # the REAL utils.validate_uid is executed here (the negotiation contracts summarise it as True: every UID that reaches
+        # them has passed it), under either value of the configuration flag it reads
+        del c.summaries["pynetdicom.utils:validate_uid"]
+        c.module_consts[("pynetdicom._config", "ENFORCE_UID_CONFORMANCE")] = lambda I: I.ghost["enforce"]
+        return c
+
+    def body(self, I):
+        P = f"{self.prefix}{ADD_TS}"
+        I.ghost["enforce"] = I.choose(2, "_config.ENFORCE_UID_CONFORMANCE") == 1
+        o = Obj(I.repo.cls(f"{PR}:PresentationContext"), tag="cx")
+        n_old = I.choose(3, "entries already in the list")
+        old = [ts_uid(I, I.input("int", f"held_{k}").e) for k in range(n_old)]
+        o.fields.update(_context_id=None, _abstract_syntax=None, _transfer_syntax=list(old), result=None,
+                        _scu_role=None, _scp_role=None, _as_scp=None, _as_scu=None)
+        what = I.choose(3, "argument kind")
+        arg = [UIDv(I.input("int", "syntax").e), None, 17][what]       # ANY UID identity (the empty one included), None, a non-str
+        kind, val = I.run_function(I.repo.func(ADD_TS), [o, arg])
+        lst = o.fields.get("_transfer_syntax")
+        # whatever the call did (returned or raised): every entry of the list is a UID that is provably not the empty one
+        ok = isinstance(lst, list) and all(isinstance(e, UIDv) and I.valid(e.ident != EMPTY_UID) for e in lst)
+        I.ob(f"{P}/invariant:the-empty-UID-is-never-in-the-transfer-syntax-list", ok, detail=repr(lst))
 
 
 # ---------------------------------------------------------------------------------------------
@@ -115,7 +173,7 @@ def mk_inputs(I):
         # requires: odd ids in 1..255, at least one transfer syntax per proposed context
         I.assume(z3.Implies(z3.And(i >= 0, i < nrq.e), z3.And(cid(i) >= 1, cid(i) <= 255, cid(i) % 2 == 1, rq_tn(i) >= 1,
                                                                MEM(i, rq_ts(i, 0)))))
-        ts = SymSeq(f"rq[{i}].ts", rq_tn(i), lambda j, i=i: UIDv(rq_ts(i, j)),
+        ts = SymSeq(f"rq[{i}].ts", rq_tn(i), lambda j, i=i: ts_uid(I, rq_ts(i, j)),
                     contains=lambda I_, item, i=i: MEM(i, item.ident) if isinstance(item, UIDv) else False)
         o.fields.update(_context_id=SV(cid(i), "int"), _abstract_syntax=UIDv(rq_ab(i)), _transfer_syntax=ts, result=None,
                         _scu_role=None, _scp_role=None, _as_scp=None, _as_scu=None)
@@ -125,7 +183,7 @@ def mk_inputs(I):
     def ac_elem(k):
         o = Obj(cls, tag=f"ac[{k}]")
         I.assume(z3.Implies(z3.And(k >= 0, k < nac.e), ac_tn(k) >= 1))
-        ts = SymSeq(f"ac[{k}].ts", ac_tn(k), lambda j, k=k: UIDv(ac_ts(k, j)))
+        ts = SymSeq(f"ac[{k}].ts", ac_tn(k), lambda j, k=k: ts_uid(I, ac_ts(k, j)))
         o.fields.update(_context_id=None, _abstract_syntax=UIDv(ac_ab(k)), _transfer_syntax=ts, result=None,
                         _as_scp=None, _as_scu=None)
         o.ac_index = k
@@ -755,7 +813,7 @@ def mk_requestor_inputs(I):
     def rq_elem(i):
         o = Obj(cls, tag=f"rq[{i}]")
         I.assume(z3.Implies(z3.And(i >= 0, i < nrq.e), z3.And(cid(i) >= 1, cid(i) <= 255, cid(i) % 2 == 1, rq_tn(i) >= 1)))
-        ts = SymSeq(f"rq[{i}].ts", rq_tn(i), lambda j, i=i: UIDv(rq_ts(i, j)))
+        ts = SymSeq(f"rq[{i}].ts", rq_tn(i), lambda j, i=i: ts_uid(I, rq_ts(i, j)))
         key = str(z3.simplify(i))
         if key not in g["rq_ctx_roles"]:
             g["rq_ctx_roles"][key] = R.RQ_PROPOSALS[I.choose(5, "requested roles")]
@@ -767,7 +825,7 @@ def mk_requestor_inputs(I):
     def ac_elem(k):
         o = Obj(cls, tag=f"ac[{k}]")
         I.assume(z3.Implies(z3.And(k >= 0, k < nac.e), z3.And(ac_tn(k) >= 0, ac_res(k) >= 0, ac_res(k) <= 4)))
-        ts = SymSeq(f"ac[{k}].ts", ac_tn(k), lambda j, k=k: UIDv(ac_ts(k, j)))
+        ts = SymSeq(f"ac[{k}].ts", ac_tn(k), lambda j, k=k: ts_uid(I, ac_ts(k, j)))
         o.fields.update(_context_id=SV(ac_id(k), "int"), _abstract_syntax=None, _transfer_syntax=ts, result=SV(ac_res(k), "int"),
                         _scu_role=None, _scp_role=None, _as_scp=None, _as_scu=None)
         return o
